@@ -506,6 +506,19 @@ def zoo(qtn, quick):
     def _(rng, dt):
         return qtn.IsoTensor(rnd(rng, (2, 3, 2), dt), ("a", "e", "c"), tags=("X",), left_inds=("a", "e"))
 
+    @reg("Tensor-rank2")
+    def _(rng, dt):
+        return qtn.Tensor(rnd(rng, (2, 2), dt), ("a", "e"), tags=("X",))
+
+    @reg("TN-left-inds")
+    def _(rng, dt):
+        # every tensor carries left_inds: a proper subset, ALL of its labels, and none (the last two take the
+        # "effective vector -> normalize" shortcut of Tensor.isometrize)
+        ts = [qtn.Tensor(rnd(rng, (2, 2), dt), ("a", "x"), tags=("A",), left_inds=("a",)),
+              qtn.Tensor(rnd(rng, (2, 3, 2), dt), ("x", "y", "s"), tags=("B",), left_inds=("x", "y", "s")),
+              qtn.Tensor(rnd(rng, (3, 2), dt), ("y", "e"), tags=("C",), left_inds=())]
+        return qtn.TensorNetwork(ts)
+
     @reg("Tensor-repeated")
     def _(rng, dt):
         return qtn.Tensor(rnd(rng, (2, 2, 3), dt), ("a", "a", "c"), tags=("X",))
@@ -675,7 +688,7 @@ def need(cond, why="not applicable to this receiver"):
 
 @args_for("Tensor.astype", "TensorNetwork.astype")
 def _(x, rng, qtn, dt):
-    return [C("complex128"), C("complex64" if "64" in dt or "complex" in dt else "float32")]
+    return [C("complex128"), C("complex64" if "64" in dt or "complex" in dt else "float32"), C(dt).flag(note="same dtype")]
 
 
 @args_for("Tensor.collapse_repeated", "Tensor.conj", "Tensor.negate", "Tensor.normalize", "TensorNetwork.negate",
@@ -748,7 +761,7 @@ def _(x, rng, qtn, dt):
     need(len(x.inds) >= 2 and len(set(x.inds)) == len(x.inds))
     i = x.inds
     return [C({"f": (i[0], i[1])}), C([("f", (i[-1], i[0]))]), C({"f": (i[1],)}), C({"f": i[::-1]}),
-            C({"f": (i[0],), "g": (i[-1],)})]
+            C({"f": (i[0],), "g": (i[-1],)}), C({}).flag(note="empty fuse map")]
 
 
 @args_for("Tensor.gate")
@@ -764,7 +777,7 @@ def _(x, rng, qtn, dt):
 def _(x, rng, qtn, dt):
     o = outer_of(x) + ([] if is_tensor(x) else inner_of(x))
     need(o)
-    out = [C({o[0]: 0}), C({o[-1]: size_of(x, o[-1]) - 1}), C({o[0]: slice(0, 1)})]
+    out = [C({o[0]: 0}), C({o[-1]: size_of(x, o[-1]) - 1}), C({o[0]: slice(0, 1)}), C({}).flag(note="empty selector")]
     if len(o) > 1:
         out.append(C({o[0]: 0, o[1]: 0}))
     return out
@@ -773,7 +786,7 @@ def _(x, rng, qtn, dt):
 @args_for("Tensor.unitize")
 def _(x, rng, qtn, dt):
     need(len(x.inds) >= 2 and len(set(x.inds)) == len(x.inds))
-    return [C(left_inds=x.inds[:-1])]
+    return [C(left_inds=x.inds[:-1]), C(left_inds=()), C(left_inds=x.inds)]
 
 
 @args_for("Tensor.isometrize")
@@ -783,6 +796,10 @@ def _(x, rng, qtn, dt):
     allbut = x.inds[:-1]
     out = [C(left_inds=allbut, method=m) for m in ("qr", "svd", "mgs", "exp", "cayley")]
     out += [C(left_inds=li, method="svd"), C(left_inds=li, method="qr"), C(left_inds=allbut[::-1])]
+    # effective vectors (empty left or empty right group): the "just normalize" shortcut, every method
+    for m in ("qr", "svd", "mgs", "exp", "cayley"):
+        out += [C(left_inds=(), method=m).flag(note="empty left group"),
+                C(left_inds=x.inds[::-1], method=m).flag(note="left group = all labels")]
     if len(x.inds) >= 3:
         # the right group has two labels and is fused in storage order: the parametrising methods are not covariant
         out += [C(left_inds=li, method=m).flag(note="right group of >= 2 labels fused in storage order, method " + m)
@@ -829,7 +846,8 @@ def _(x, rng, qtn, dt):
 def _(x, rng, qtn, dt):
     o = outer_of(x)
     need(o)
-    out = [C({o[0]: "new0"}), C({o[0]: "new0", "absent": "zz"})]
+    out = [C({o[0]: "new0"}), C({o[0]: "new0", "absent": "zz"}), C({}).flag(note="empty map"),
+           C({"absent": "zz"}).flag(note="no label matches"), C({o[0]: o[0]}).flag(note="identity map")]
     if not is_tensor(x):
         i = inner_of(x)
         if i:
@@ -844,7 +862,7 @@ def _(x, rng, qtn, dt):
 def _(x, rng, qtn, dt):
     tags = list(x.tags)
     need(tags)
-    out = [C({tags[0]: "NEWTAG"})]
+    out = [C({tags[0]: "NEWTAG"}), C({}).flag(note="empty map"), C({tags[0]: tags[0]}).flag(note="identity map")]
     if len(tags) > 1:
         out.append(C({tags[0]: tags[1]}))
         out.append(C({tags[0]: tags[1], tags[1]: tags[0]}))
@@ -853,7 +871,9 @@ def _(x, rng, qtn, dt):
 
 @args_for("Tensor.squeeze")
 def _(x, rng, qtn, dt):
-    return [C(), C(include=x.inds[:2]), C(exclude=x.inds[:1])]
+    big = [ix for ix, d in zip(x.inds, x.shape) if d > 1]
+    return [C(), C(include=x.inds[:2]), C(exclude=x.inds[:1]), C(include=big[:1]).flag(note="nothing squeezable is included"),
+            C(exclude=x.inds).flag(note="everything excluded"), C(include=())]
 
 
 @args_for("Tensor.sum_reduce", "TensorNetwork.sum_reduce")
@@ -877,7 +897,8 @@ def _(x, rng, qtn, dt):
 @args_for("Tensor.trace")
 def _(x, rng, qtn, dt):
     need(len(x.inds) >= 2 and x.shape[0] == x.shape[1] and len(set(x.inds)) == len(x.inds))
-    return [C(x.inds[0], x.inds[1]), C([x.inds[0]], [x.inds[1]]), C(x.inds[0], x.inds[1], preserve_tensor=True)]
+    return [C(x.inds[0], x.inds[1]), C([x.inds[0]], [x.inds[1]]), C(x.inds[0], x.inds[1], preserve_tensor=True),
+            C(x.inds[1], x.inds[0])]
 
 
 @args_for("Tensor.transpose")
@@ -1039,6 +1060,9 @@ def exercise(cx, qtn, rname, build, rec, dt, nperm, seed_base):
                 r_ = y
             if case.random:
                 return same_structure(r, r_, "f(x) vs f_(copy(x))")
+            if case.kw.get("strip_exponent") and _kind(r) != _kind(r_):
+                # the plain spelling hands back (mantissa, exponent), the in-place one stores the exponent on the network
+                return same_stripped(r, r_, "f(x) vs f_(copy(x))", case.loose)
             return same_labelled_object(r, r_, "f(x) vs f_(copy(x))")
 
         res = {}
@@ -1061,11 +1085,32 @@ def exercise(cx, qtn, rname, build, rec, dt, nperm, seed_base):
                 _CTX["single"] = single
                 c2 = Case(*ap, **kp).flag(mut=case.mut)
                 rp = call_plain(xp, rec, c2)
+                if case.kw.get("strip_exponent") and isinstance(r, tuple):
+                    return same_stripped(r, rp, "f(x) vs f(x with permuted axes)", case.loose)
                 return same_labelled_value(r, rp, "f(x) vs f(x with permuted axes)", loose=case.loose,
                                            check_structure=not case.gauge)
 
             cx.check(K_PERM, dict(params, perm=k), t_perm)
     return n
+
+
+def unstrip(v):
+    """(mantissa, exponent) as returned with strip_exponent=True -> the value it denotes, as (outer labels, array);
+    a network / tensor / scalar -> its value likewise"""
+    if isinstance(v, tuple) and len(v) == 2 and _kind(v[1]) == "scalar" and _kind(v[0]) in ("TN", "T", "scalar"):
+        o, val = _as_value(v[0])
+        return o, np.asarray(val) * 10.0 ** float(np.real(v[1]))
+    return _as_value(v)
+
+
+def same_stripped(a, b, what, loose=1.0):
+    try:
+        (oa, va), (ob, vb) = unstrip(a), unstrip(b)
+    except Skip:
+        return None
+    if oa != ob:
+        return f"{what}: outer labels {oa} vs {ob}"
+    return _close(va, vb, what + " (mantissa * 10**exponent)", loose)
 
 
 def same_structure(a, b, what):
@@ -1136,7 +1181,8 @@ def _(x, rng, qtn, dt):
 def _(x, rng, qtn, dt):
     g = unique_tags(x)
     need(g)
-    return [C(g[0]).flag(gauge=True), C(g[-1], max_distance=1, absorb="left").flag(gauge=True)]
+    return [C(g[0]).flag(gauge=True), C(g[-1], max_distance=1, absorb="left").flag(gauge=True),
+            C(g[0], max_distance=0).flag(gauge=True, note="nothing within distance")]
 
 
 @args_for("TensorNetwork.gauge_local")
@@ -1172,6 +1218,11 @@ def _(x, rng, qtn, dt):
     o = outer_of(x)
     if o:
         out.append(C(output_inds=o[::-1]))
+    out.append(C(max_bond=64, cutoff=0.0).flag(gauge=True, loose=1e3, note="dispatch to contract_compressed"))
+    if getattr(type(x), "_CONTRACT_STRUCTURED", False) and getattr(x, "L", 0) >= 2:
+        out += [C(slice(0, 2)).flag(note="structured slice"), C(slice(0, x.L)).flag(note="structured, all sites")]
+    if g:
+        out.append(C(g, strip_exponent=True).flag(note="strip_exponent"))
     return out
 
 
@@ -1182,6 +1233,10 @@ def _(x, rng, qtn, dt):
     out = [C(g[0]), C(g[:2], which="any")]
     if len(g) >= 2:
         out.append(C(g[:2], which="all") if any(set(g[:2]) <= set(t.tags) for t in x.tensor_map.values()) else C(g[-1]))
+    # tags covering every tensor (the "contracted everything" return), plain and with the exponent stripped
+    out += [C(g, which="any").flag(note="tags cover all tensors"),
+            C(g, which="any", strip_exponent=True).flag(note="tags cover all tensors, strip_exponent"),
+            C(g[0], strip_exponent=True).flag(note="strip_exponent"), C(g[0], preserve_tensor=True)]
     return out
 
 
@@ -1214,7 +1269,7 @@ def _(x, rng, qtn, dt):
           "TensorNetwork2DFlat.expand_bond_dimension")
 def _(x, rng, qtn, dt):
     need(inner_of(x))
-    return [C(4), C(5, inds_to_expand=inner_of(x)[:1])]
+    return [C(4), C(5, inds_to_expand=inner_of(x)[:1]), C(1).flag(note="nothing to expand")]
 
 
 @args_for("TensorNetwork.gate_inds")
@@ -1264,7 +1319,7 @@ def _(x, rng, qtn, dt):
 @args_for("TensorNetwork.gauge_all_canonize", "TensorNetwork.gauge_all_simple", "TensorNetwork.gauge_all_belief_propagation")
 def _(x, rng, qtn, dt):
     need(inner_of(x))
-    return [C(max_iterations=2).flag(gauge=True, loose=1e3)]
+    return [C(max_iterations=2).flag(gauge=True, loose=1e3), C(max_iterations=0).flag(gauge=True, note="no iterations")]
 
 
 @args_for("TensorNetwork.gauge_all")
@@ -1302,12 +1357,16 @@ def _(x, rng, qtn, dt):
 
 @args_for("TensorNetwork.isometrize", "TensorNetwork.unitize")
 def _(x, rng, qtn, dt):
-    return [C(allow_no_left_inds=True)]
+    out = [C(allow_no_left_inds=True).flag(gauge=True)]
+    if all(t.left_inds is not None for t in x.tensor_map.values()):
+        out += [C(method=m).flag(gauge=True) for m in ("qr", "svd", "exp", "cayley", "mgs")]
+    return out
 
 
 @args_for("TensorNetwork.multiply")
 def _(x, rng, qtn, dt):
-    return [C(2.5), C(-1.5, spread_over=2), C(0.5 + (0.5j if "complex" in dt else 0.0), spread_over="all")]
+    return [C(2.5), C(-1.5, spread_over=2), C(0.5 + (0.5j if "complex" in dt else 0.0), spread_over="all"),
+            C(1.0).flag(note="multiply by one"), C(3.0, spread_over=1)]
 
 
 @args_for("TensorNetwork.multiply_each")
@@ -1333,8 +1392,8 @@ def _(x, rng, qtn, dt):
             touches_outer = bool(o.intersection(t.inds))
             out.append(C(tag).flag(gauge=True, note="a leg of the region is an outer label of the network" if touches_outer
                                    else "both legs of the region are bonds"))
-    need(out, "no rank-2 square tensor")
-    return out[:3]
+    out = out[:3] + [C(()).flag(note="empty region"), C([]).flag(note="empty region")]
+    return out
 
 
 @args_for("TensorNetwork.replace_with_svd")
@@ -1367,8 +1426,12 @@ def _(x, rng, qtn, dt):
     target = x.copy()
     for t in target.tensor_map.values():
         t.modify(data=rnd(rng, t.shape, dt))
+    target.mangle_inner_()  # a distinct network: `tn | target` inside the fitters then has no inner label to rename
     need(len(x.tensor_map) > 1)
-    return [C(target, steps=2, progbar=False, enforce_pos=True).flag(gauge=True, loose=1e6)]
+    out = [C(target, steps=2, progbar=False, enforce_pos=True).flag(gauge=True, loose=1e6)]
+    if is_tree(x):
+        out.append(C(target, method="tree", steps=2, progbar=False).flag(gauge=True, loose=1e6))
+    return out
 
 
 # ---- arbitrary geometry: TensorNetworkGen / Vector / Operator ------------------------------------
@@ -1615,19 +1678,22 @@ def _(x, rng, qtn, dt):
 @args_for("TensorNetwork1DFlat.expand_bond_dimension")
 def _(x, rng, qtn, dt):
     need(x.L > 1)
-    return [C(5), C(4, create_bond=True)]
+    return [C(5), C(4, create_bond=True), C(1).flag(note="nothing to expand")]
 
 
 @args_for("TensorNetwork1DFlat.swap_site_to")
 def _(x, rng, qtn, dt):
     need(x.L >= 3 and not x.cyclic and hasattr(x, "site_ind"))
-    return [C(0, 2).flag(gauge=True), C(x.L - 1, 0, cutoff=0.0).flag(gauge=True)]
+    return [C(0, 2).flag(gauge=True), C(x.L - 1, 0, cutoff=0.0).flag(gauge=True), C(1, 1).flag(gauge=True, note="i == f")]
 
 
 @args_for("TensorNetwork1DFlat.swap_sites_with_compress")
 def _(x, rng, qtn, dt):
     need(x.L >= 2 and not x.cyclic and hasattr(x, "site_ind"))
-    return [C(0, 1).flag(gauge=True), C(1, 0, cutoff=0.0).flag(gauge=True)]
+    out = [C(0, 1).flag(gauge=True), C(1, 0, cutoff=0.0).flag(gauge=True)]
+    if x.L >= 3:
+        out.append(C(2, 0, cutoff=0.0).flag(gauge=True, note="non-adjacent"))
+    return out
 
 
 def local_terms(x, rng, dt):
@@ -1639,11 +1705,19 @@ def local_terms(x, rng, dt):
     return terms
 
 
-@args_for("MatrixProductState.compute_local_expectation", "MatrixProductState.compute_local_expectation_canonical")
+@args_for("MatrixProductState.compute_local_expectation_canonical")
 def _(x, rng, qtn, dt):
     need(not x.cyclic and x.L >= 2)
     terms = local_terms(x, rng, dt)
-    return [C(terms), C(terms, normalized=False, return_all=True)]
+    return [C(terms), C(terms, normalized=False, return_all=True), C({}).flag(note="no terms")]
+
+
+@args_for("MatrixProductState.compute_local_expectation")
+def _(x, rng, qtn, dt):
+    need(not x.cyclic and x.L >= 2)
+    terms = local_terms(x, rng, dt)
+    return [C(terms), C(terms, normalized=False, return_all=True), C(terms, method="envs", max_bond=16),
+            C(terms, method="canonical", return_all=True)]
 
 
 @args_for("TensorNetwork1D.contract_structured")
@@ -1662,6 +1736,10 @@ def _(x, rng, qtn, dt):
     L = x.L
     d0 = phys(x, 0)
     out = [C(rnd(rng, (d0, d0), dt), 0), C(rnd(rng, (d0, d0), dt), (L - 1,), contract=True)]
+    if type(x).__name__ == "MatrixProductState" and not getattr(x, "cyclic", False):
+        # one-site gates through the two-site machinery (ng == 1 shortcuts of gate_TN_1D)
+        out += [C(rnd(rng, (d0, d0), dt), (0,), contract="swap+split").flag(gauge=True, note="one site, swap+split"),
+                C(rnd(rng, (d0, d0), dt), (0,), contract="nonlocal").flag(gauge=True, note="one site, nonlocal")]
     if L >= 2:
         d1 = phys(x, 1)
         G = rnd(rng, (d0 * d1, d0 * d1), dt)
@@ -1699,14 +1777,15 @@ def _(x, rng, qtn, dt):
 def _(x, rng, qtn, dt):
     need(not x.cyclic)
     A = mpo_like(x, rng, qtn, dt)
-    return [C(A).flag(gauge=True), C(A, method="zipup", max_bond=8, cutoff=0.0).flag(gauge=True)]
+    return [C(A).flag(gauge=True), C(A, method="zipup", max_bond=8, cutoff=0.0).flag(gauge=True),
+            C(A, method="lazy").flag(gauge=True, note="lazy")]
 
 
 @args_for("MatrixProductState.gate_with_submpo")
 def _(x, rng, qtn, dt):
     need(not x.cyclic and x.L >= 3)
     A = mpo_like(x, rng, qtn, dt, sites=[0, 2])
-    return [C(A).flag(gauge=True)]
+    return [C(A).flag(gauge=True), C(A, method="lazy").flag(gauge=True, note="lazy")]
 
 
 @args_for("MatrixProductState.measure")
@@ -1754,7 +1833,9 @@ def _(x, rng, qtn, dt):
 def _(x, rng, qtn, dt):
     flat(x)
     return [C((0, 1), (0, x.Ly - 1), "xmin", max_bond=8).flag(gauge=True, loose=1e3),
-            C((0, x.Lx - 1), (x.Ly - 2, x.Ly - 1), "ymax", max_bond=8, sweep_reverse=True).flag(gauge=True, loose=1e3)]
+            C((0, x.Lx - 1), (x.Ly - 2, x.Ly - 1), "ymax", max_bond=8, sweep_reverse=True).flag(gauge=True, loose=1e3),
+            C((0, 1), (0, x.Ly - 1), "xmin", max_bond=8, mode="full-bond").flag(gauge=True, loose=1e3, note="full-bond"),
+            C((0, 1), (0, x.Ly - 1), "xmin", max_bond=8, mode="projector2d").flag(gauge=True, loose=1e3, note="projector2d")]
 
 
 @args_for("TensorNetwork2D.contract_boundary_from_xmin", "TensorNetwork2D.contract_boundary_from_ymin")
@@ -1785,7 +1866,7 @@ def _(x, rng, qtn, dt):
           "TensorNetwork3D.contract_hotrg")
 def _(x, rng, qtn, dt):
     flat(x)
-    return [C(max_bond=4).flag(gauge=True, loose=1e4)]
+    return [C(max_bond=4).flag(gauge=True, loose=1e4), C(max_bond=4, final_contract=False).flag(gauge=True, loose=1e4)]
 
 
 @args_for("TensorNetwork2D.coarse_grain_hotrg", "TensorNetwork3D.coarse_grain_hotrg")
@@ -1797,7 +1878,9 @@ def _(x, rng, qtn, dt):
 @args_for("TensorNetwork3D.contract_boundary_from")
 def _(x, rng, qtn, dt):
     flat(x)
-    return [C((0, 1), (0, x.Ly - 1), (0, x.Lz - 1), "xmin", max_bond=8).flag(gauge=True, loose=1e3)]
+    return [C((0, 1), (0, x.Ly - 1), (0, x.Lz - 1), "xmin", max_bond=8).flag(gauge=True, loose=1e3),
+            C((0, 1), (0, x.Ly - 1), (0, x.Lz - 1), "xmin", max_bond=8, mode="projector3d").flag(gauge=True, loose=1e3),
+            C((0, 1), (0, x.Ly - 1), (0, x.Lz - 1), "zmax", max_bond=8, mode="mps").flag(gauge=True, loose=1e3)]
 
 
 @args_for("TensorNetwork3D.contract_peps_sweep", "TensorNetwork3D.contract_simple_sweep")
@@ -1808,7 +1891,7 @@ def _(x, rng, qtn, dt):
 
 @args_for("TensorNetwork2DFlat.expand_bond_dimension")
 def _(x, rng, qtn, dt):
-    return [C(3), C(4, rand_strength=0.0)]
+    return [C(3), C(4, rand_strength=0.0), C(1).flag(note="nothing to expand")]
 
 
 @args_for("TensorNetwork2DVector.normalize")
